@@ -154,12 +154,37 @@ Definition dec_hop (e : sx) : option hop :=
   | _ => None
   end.
 
-Definition dec_variant (e : sx) : option variant :=
+Definition dec_addvar (e : sx) : option addvar :=
   match e with
   | SI 0%Z => Some Current
   | SI 1%Z => Some FixAssign
   | SI 2%Z => Some FixAssignSort
   | _ => None
+  end.
+
+(* (latest_exact match_sorts tie_break) *)
+Definition dec_cfg (e : sx) : option mcfg :=
+  match e with
+  | SL [a; b; c] =>
+      match dec_bool a, dec_bool b, dec_bool c with
+      | Some a, Some b, Some c => Some {| latest_exact := a; match_sorts := b; tie_break := c |}
+      | _, _, _ => None
+      end
+  | _ => None
+  end.
+
+(* (add cfg), or a bare add number with the unrepaired match.go (the recorded witnesses) *)
+Definition dec_variant (e : sx) : option variant :=
+  match e with
+  | SL [a; c] =>
+      match dec_addvar a, dec_cfg c with
+      | Some a, Some c => Some {| v_add := a; v_cfg := c |}
+      | _, _ => None
+      end
+  | _ => match dec_addvar e with
+         | Some a => Some {| v_add := a; v_cfg := cfg_old |}
+         | None => None
+         end
   end.
 
 (* ---------- printing ---------- *)
@@ -194,13 +219,13 @@ Definition sx_obs (o : obs) : sx :=
    fragment. *)
 Definition long {A} (l : list A) : bool := Nat.ltb max_insertion (length l).
 
-Definition versions_ambiguous (O : oracle) (vs : list version) : bool :=
+Definition versions_ambiguous (C : mcfg) (O : oracle) (vs : list version) : bool :=
   long vs &&
   match vs with
   | [] => false
   | v0 :: _ =>
       if N.eqb (v_sys v0) sys_npm then negb (tie_free (npm_less O) vs)
-      else negb (tie_free (gen_less O (v_sys v0)) vs) ||
+      else negb (tie_free (gen_less C O (v_sys v0)) vs) ||
            negb (forallb (fun v => o_parses O (v_sys v0) (ver v)) vs)
   end.
 
@@ -225,7 +250,7 @@ Definition run_history (var : variant) (T : list systable) (ops : list hop) : sx
   else
     let O := table_oracle T in
     let final := run O var ops in
-    if existsb (fun e => versions_ambiguous O (snd e)) (c_pkgs final) || existsb hop_deps_ambiguous ops
+    if existsb (fun e => versions_ambiguous (v_cfg var) O (snd e)) (c_pkgs final) || existsb hop_deps_ambiguous ops
     then SB sym_oom
     else SL (map sx_obs (observe O var empty_client ops)).
 
@@ -255,37 +280,37 @@ Definition run_Client (kind : bytes) (a : sx) : option sx :=
           end)
   else if bytes_eqb kind k_sortv then
     Some (match a with
-          | SL [tbl; SI sys; vs; perm] =>
-              match dec_list dec_systable tbl, dec_list (dec_version sys) vs, dec_list dec_Z perm with
-              | Some T, Some vs, Some perm =>
+          | SL [tbl; SI sys; vs; perm; cfg] =>
+              match dec_list dec_systable tbl, dec_list (dec_version sys) vs, dec_list dec_Z perm, dec_cfg cfg with
+              | Some T, Some vs, Some perm, Some C =>
                   match pick vs perm with
                   | Some l =>
                       if negb (forallb table_wf T && forallb (fun v => covers_ver T (v_sys v) (ver v)) l)
                       then SL [SB sym_notable]
                       else let O := table_oracle T in
-                           if versions_ambiguous O l then SB sym_oom else sx_versions (sort_versions O l)
+                           if versions_ambiguous C O l then SB sym_oom else sx_versions (sort_versions C O l)
                   | None => badcase
                   end
-              | _, _, _ => badcase
+              | _, _, _, _ => badcase
               end
           | _ => badcase
           end)
   else if bytes_eqb kind k_matchreq then
     Some (match a with
-          | SL [tbl; SI sys; SB req; vs; perm] =>
-              match dec_list dec_systable tbl, dec_list (dec_version sys) vs, dec_list dec_Z perm with
-              | Some T, Some vs, Some perm =>
+          | SL [tbl; SI sys; SB req; vs; perm; cfg] =>
+              match dec_list dec_systable tbl, dec_list (dec_version sys) vs, dec_list dec_Z perm, dec_cfg cfg with
+              | Some T, Some vs, Some perm, Some C =>
                   match pick vs perm with
                   | Some l =>
                       if negb (forallb table_wf T && forallb (fun v => covers_ver T (v_sys v) (ver v)) l
                                && covers_req T (Z.to_N sys) req)
                       then SL [SB sym_notable]
                       else let O := table_oracle T in
-                           if N.eqb (Z.to_N sys) sys_npm && versions_ambiguous O l then SB sym_oom
-                           else sx_versions (match_requirement O (mk_vkey sys [112] (Z.of_N vt_requirement) req) l)
+                           if (N.eqb (Z.to_N sys) sys_npm || match_sorts C) && versions_ambiguous C O l then SB sym_oom
+                           else sx_versions (match_requirement C O (mk_vkey sys [112] (Z.of_N vt_requirement) req) l)
                   | None => badcase
                   end
-              | _, _, _ => badcase
+              | _, _, _, _ => badcase
               end
           | _ => badcase
           end)
